@@ -66,10 +66,12 @@ TamperNext ==
   \/ /\ Len(st) = 2 /\ st[2].started /\ aux[1].nfin = 0 /\ aux[2].nfin = 0
      /\ \/ Finish(1, SentBy(2))
         \/ TAMPER = "one" /\ \E b \in AllShort(0) : Finish(1, <<PeerSide(CA)>> \o b)
+        \/ TAMPER \in {"one", "two"} /\ \E sb \in 0..255 : sb # PeerSide(CA) /\ Finish(1, <<sb>> \o Tail(SentBy(2)))   \* altered side byte
         \/ TAMPER = "two" /\ \E b \in Structured(SentBy(2), st[1].out) : Finish(1, <<PeerSide(CA)>> \o b)
   \/ /\ Len(st) = 2 /\ aux[1].nfin = 1 /\ aux[2].nfin = 0
      /\ \/ Finish(2, SentBy(1))
         \/ TAMPER = "two" /\ \E b \in Structured(SentBy(1), st[2].out) : Finish(2, <<PeerSide(CB)>> \o b)
+        \/ TAMPER = "two" /\ \E sb \in 0..255 : sb # PeerSide(CB) /\ Finish(2, <<sb>> \o Tail(SentBy(1)))
         \/ TAMPER = "one" /\ aux[1].arg1 = SentBy(2) /\ \E b \in AllShort(0) : Finish(2, <<PeerSide(CB)>> \o b)
 TamperSpec == Init /\ [][TamperNext]_vars
 
